@@ -361,3 +361,22 @@ Theorem C03_link_phrases_instance :
   (forallb lseg_okb gs = true) /\ (lbody gs = $"[one](/a) and [two words](http://x.y/z_1)[3](#f).") /\ (lseg_okb ($"x", $"a b", []) = false).
 Proof. exact links_instance. Qed.
 Print Assumptions C03_link_phrases_instance.
+
+(* ... and sentences that MIX any number of emphasised phrases and inline links, in any order (Proofs/MixPhrases.v): the scanner
+   keeps the phrases' delimiters on the stack while find_link_image matches each link on the bracket on top of it;
+   process_emphasis pairs the phrases (Proofs/EmphPairs.v); the candidates come as "all links, then all emphases" and the
+   stable sort by start puts them into source order (Proofs/ChainTokens.v: sort_to); the tokens are the text, the phrases and
+   the links in the order written - for every number of each *)
+From Mistletoe Require Import Proofs.MixPhrases.
+Theorem C03_mixed_phrases : forall types fn t0 gs,
+  ref_spans types = true -> mixed_ok t0 gs = true ->
+  Inline.tokenize_inner types fn (t0 ++ mbody gs) = EmphSentence.raw_if t0 ++ mix_toks gs.
+Proof. exact mixed_phrases. Qed.
+Print Assumptions C03_mixed_phrases.
+
+Theorem C03_mixed_phrases_instance :
+  let gs := [MEm 42 0 ($"one") ($" and "); MLk ($"a link") ($"http://x.y/z_1") ($", then "); MEm 95 1 ($"two words") ($" "); MLk ($"3") ($"#f") []; MEm 42 1 ($"x") ($".")] in
+  (mixed_ok ($"Say ") gs = true) /\ (mbody gs = $"*one* and [a link](http://x.y/z_1), then __two words__ [3](#f)**x**.") /\
+  (mixed_ok ($"Say ") [MLk ($"3") ($"#f") ($"x"); MEm 42 1 ($"x") ($".")] = false).
+Proof. exact mixed_instance. Qed.
+Print Assumptions C03_mixed_phrases_instance.
